@@ -93,6 +93,19 @@ def gen_scc(rng, tier):
         for i in range(400):
             edges = [p for p in pairs if rng.random() < rng.choice([0.15, 0.3, 0.5])]
             cases.append(scc_case("sccq%d" % i, sc.KEYS4[:4], edges, rng, 2))
+    # dense graphs on 5..9 nodes: high in-/out-degrees, parallel edges, many different component structures
+    for i in range(6000 if tier == "thorough" else 500):
+        n = rng.randint(5, 9)
+        keys = rng.sample(range(1, 500), n)
+        p = rng.choice([0.15, 0.25, 0.4, 0.6])
+        edges = [(u, v) for u in range(n) for v in range(n) if rng.random() < p]
+        if rng.random() < 0.5:
+            # layered: a DAG part feeding into cycles (edges from lower to higher index) plus a few back edges
+            edges = [(u, v) for (u, v) in edges if u < v] + [(rng.randrange(n), rng.randrange(n)) for _ in range(rng.randint(0, 4))]
+        rng.shuffle(edges)
+        if rng.random() < 0.3:
+            edges += [rng.choice(edges) for _ in range(rng.randint(1, 4))] if edges else []
+        cases.append(scc_case("sccD%d" % i, keys, edges, rng, 2))
     for i in range(3000 if tier == "thorough" else 150):
         n = rng.randint(2, 30)
         keys = rng.sample(range(1, 500), n)
@@ -197,6 +210,19 @@ def gen_container(cls, rng, tier):
                         steps.append("gdota 0 %d %d %d" % (ga, na, ea))
         steps.append("gdot 0")
         cases.append(Case("dot%s%d" % (cls, gi), cls, steps, dict(kind="dot", nodes=g.n)))
+    # dense hubs: few nodes, many edges in both directions, then removals, then the views
+    for ci in range(1500 if tier == "thorough" else 120):
+        n = rng.randint(3, 6)
+        ks = rng.sample(range(1, 60), n)
+        steps = ["new %d %d" % (k, rng.randint(-3, 3)) for k in ks] + ["gnew"] + ["gins 0 %d" % u for u in range(n)]
+        for j in range(rng.randint(12, 40)):
+            steps.append("con %d %d %d" % (rng.randrange(n), rng.randrange(n), rng.randint(0, 40)))
+        for j in range(rng.randint(1, 4)):
+            r = rng.random()
+            u = rng.randrange(n)
+            steps.append("iso %d" % u if r < 0.6 else "dis %d %d" % (u, ks[rng.randrange(n)]))
+            steps += ["snap"] + (QUERIES_D if cls == "D" else QUERIES_U)
+        cases.append(Case("kh%s%d" % (cls, ci), cls, steps, dict(kind="dense-hub-history")))
     # random long histories
     for ci in range(2000 if tier == "thorough" else 140):
         n = rng.randint(2, 8) if ci % 3 else rng.randint(9, 28)
